@@ -193,9 +193,8 @@ Definition yr_gene (ts : list trait) (ns : list node) (t : tree) : res rgene :=
   Ok {| rg_in := last_node_ref i ns; rg_out := last_node_ref o ns; rg_rec := rc; rg_w := w;
         rg_trait := trait_ref tid ts; rg_innov := innov; rg_mut := mut; rg_en := en |}.
 
-(* genetics.NodeWithId: id 0 never resolves *)
-Definition node_with_id_nz (id : Z) (ns : list node) : option node :=
-  if Z.eqb id 0 then None else node_with_id id ns.
+(* genetics.NodeWithId (after the repair of D19 id 0 resolves like any other id; the name is kept) *)
+Definition node_with_id_nz (id : Z) (ns : list node) : option node := node_with_id id ns.
 
 (* the input / output link loops of readMIMOControlGene: every link gets weight 1.0 *)
 Fixpoint yr_links (ns : list node) (l : list tree) : res (list (Z * float)) :=
